@@ -547,7 +547,39 @@ type access struct {
 	loc   string
 	write bool
 	ptr   string // printed Go expression yielding the unsafe.Pointer identity of the location
+	after bool   // recorded after the statement: the write of an assignment whose right-hand side may synchronise
 }
+
+// maySync reports whether evaluating e may block or synchronise (a call that is not a conversion
+// or a builtin, or a receive): the assignment itself then happens after that synchronisation, and
+// its write must not be recorded with the clock the thread had before.
+func (r *rewriter) maySync(e ast.Node) bool {
+	found := false
+	ast.Inspect(e, func(n ast.Node) bool {
+		switch x := n.(type) {
+		case *ast.FuncLit:
+			return false
+		case *ast.UnaryExpr:
+			if x.Op == token.ARROW {
+				found = true
+			}
+		case *ast.CallExpr:
+			if tv, ok := r.info().Types[x.Fun]; ok && tv.IsType() {
+				return true
+			}
+			if id, ok := unparen(x.Fun).(*ast.Ident); ok {
+				if _, isB := r.info().Uses[id].(*types.Builtin); isB {
+					return true
+				}
+			}
+			found = true
+		}
+		return !found
+	})
+	return found
+}
+
+func mkAccess(loc string, write bool, ptr string) access { return access{loc: loc, write: write, ptr: ptr} }
 
 func (r *rewriter) src(e ast.Expr) string {
 	var b bytes.Buffer
@@ -616,7 +648,98 @@ func (r *rewriter) rootAndPath(e ast.Expr) (types.Object, string) {
 	return nil, ""
 }
 
-// collect gathers the accesses made by evaluating e (not descending into function literals).
+var gcSizes = types.SizesFor("gc", "amd64")
+
+// heapPath recognises x.f1...fn (fields only, any variable x that is not itself a tracked root) with at
+// least one pointer indirection on the way: memory that lives behind a pointer and can therefore be
+// reached by several threads (struct fields of a *Session, a *TNC, ...). It returns the location
+// name "Type.field" and the prefixes that are read on the way. Locations are identified by address.
+func (r *rewriter) heapPath(e ast.Expr) (loc string, prefixes []ast.Expr, ok bool) {
+	x, isSel := unparen(e).(*ast.SelectorExpr)
+	if !isSel {
+		return "", nil, false
+	}
+	sel, isField := r.info().Selections[x]
+	if !isField || sel.Kind() != types.FieldVal {
+		return "", nil, false
+	}
+	if t := r.info().TypeOf(x); t == nil || gcSizes.Sizeof(t) == 0 {
+		return "", nil, false // zero-size fields share their address with a neighbour
+	}
+	indirect := false
+	cur := ast.Expr(x)
+	for {
+		switch y := unparen(cur).(type) {
+		case *ast.SelectorExpr:
+			sl, isF := r.info().Selections[y]
+			if !isF || sl.Kind() != types.FieldVal {
+				return "", nil, false
+			}
+			if sl.Indirect() {
+				indirect = true
+			}
+			if y != x {
+				// a prefix is read only where a pointer stored in it is loaded (a struct-valued field
+				// on the way is mere address arithmetic)
+				if _, isPtr := r.info().TypeOf(y).Underlying().(*types.Pointer); isPtr {
+					if _, _, pok := r.heapPath(y); pok {
+						prefixes = append(prefixes, y)
+					}
+				}
+			}
+			cur = y.X
+			continue
+		case *ast.StarExpr:
+			indirect = true
+			cur = y.X
+			continue
+		case *ast.Ident:
+			v, isVar := r.info().Uses[y].(*types.Var)
+			if !isVar || v.IsField() || r.shared[v] {
+				return "", nil, false
+			}
+		default:
+			return "", nil, false
+		}
+		break
+	}
+	if !indirect {
+		return "", nil, false
+	}
+	bt := r.info().TypeOf(x.X)
+	if p, isPtr := bt.Underlying().(*types.Pointer); isPtr {
+		bt = p.Elem()
+	}
+	name := types.TypeString(bt, func(*types.Package) string { return "" })
+	if len(name) > 40 {
+		name = "struct"
+	}
+	return name + "." + x.Sel.Name, prefixes, true
+}
+
+// safePtr is the address of a heap path, nil if a pointer on the way is nil (the instrumentation
+// is hoisted in front of the statement and must not introduce a nil dereference of its own).
+func (r *rewriter) safePtr(e ast.Expr) string {
+	return "vs.P(func() unsafe.Pointer { return " + r.memPtr(e) + " })"
+}
+
+// heapAccess appends the accesses of evaluating (write: assigning to) the heap path e.
+func (r *rewriter) heapAccess(e ast.Expr, write bool, acc *[]access) bool {
+	loc, prefixes, ok := r.heapPath(e)
+	if !ok {
+		return false
+	}
+	for _, p := range prefixes {
+		pl, _, _ := r.heapPath(p)
+		*acc = append(*acc, mkAccess(pl, false, r.safePtr(unparen(p))))
+	}
+	*acc = append(*acc, mkAccess(loc, write, r.safePtr(unparen(e))))
+	return true
+}
+
+// collect gathers the accesses made by evaluating e (not descending into function literals, not
+// into the right operand of && and ||, which is not always evaluated, and not into &x.f, which
+// does not access x.f).
 func (r *rewriter) collect(e ast.Node, acc *[]access) {
 	if e == nil {
 		return
@@ -625,14 +748,37 @@ func (r *rewriter) collect(e ast.Node, acc *[]access) {
 		switch x := n.(type) {
 		case *ast.FuncLit:
 			return false
+		case *ast.BinaryExpr:
+			if x.Op == token.LAND || x.Op == token.LOR {
+				r.collect(x.X, acc)
+				return false
+			}
+		case *ast.UnaryExpr:
+			if x.Op == token.AND {
+				switch unparen(x.X).(type) {
+				case *ast.SelectorExpr, *ast.Ident:
+					return false
+				}
+			}
 		case *ast.CallExpr:
 			if se, ok := x.Fun.(*ast.SelectorExpr); ok {
 				if sel, ok := r.info().Selections[se]; ok && sel.Kind() == types.MethodVal {
+					if _, _, isHeap := r.heapPath(se.X); isHeap {
+						if cn := containerName(r.info().TypeOf(se.X)); cn != "" {
+							loc, _, _ := r.heapPath(se.X)
+							*acc = append(*acc, mkAccess(loc + "#obj", !containerRO[cn][se.Sel.Name], "vs.P(func() unsafe.Pointer { return " + r.objPtr(se.X) + " })"))
+						}
+						r.heapAccess(se.X, false, acc)
+						for _, a := range x.Args {
+							r.collect(a, acc)
+						}
+						return false
+					}
 					if root, p := r.rootAndPath(se.X); root != nil {
 						if cn := containerName(r.info().TypeOf(se.X)); cn != "" {
-							*acc = append(*acc, access{p + "#obj", !containerRO[cn][se.Sel.Name], r.objPtr(se.X)})
+							*acc = append(*acc, mkAccess(p + "#obj", !containerRO[cn][se.Sel.Name], r.objPtr(se.X)))
 						}
-						*acc = append(*acc, access{p, false, r.memPtr(se.X)})
+						*acc = append(*acc, mkAccess(p, false, r.memPtr(se.X)))
 						for _, a := range x.Args {
 							r.collect(a, acc)
 						}
@@ -642,17 +788,22 @@ func (r *rewriter) collect(e ast.Node, acc *[]access) {
 			}
 			if len(x.Args) == 2 && r.isBuiltin(x.Fun, "delete") {
 				if root, p := r.rootAndPath(x.Args[0]); root != nil {
-					*acc = append(*acc, access{p, true, r.memPtr(x.Args[0])})
+					*acc = append(*acc, mkAccess(p, true, r.memPtr(x.Args[0])))
+				} else if loc, _, ok := r.heapPath(x.Args[0]); ok {
+					*acc = append(*acc, mkAccess(loc, true, r.safePtr(unparen(x.Args[0]))))
 				}
 			}
 		case *ast.SelectorExpr:
 			if root, p := r.rootAndPath(x); root != nil {
-				*acc = append(*acc, access{p, false, r.memPtr(x)})
+				*acc = append(*acc, mkAccess(p, false, r.memPtr(x)))
+				return false
+			}
+			if r.heapAccess(x, false, acc) {
 				return false
 			}
 		case *ast.Ident:
 			if root, p := r.rootAndPath(x); root != nil {
-				*acc = append(*acc, access{p, false, r.memPtr(x)})
+				*acc = append(*acc, mkAccess(p, false, r.memPtr(x)))
 			}
 		}
 		return true
@@ -662,22 +813,28 @@ func (r *rewriter) collect(e ast.Node, acc *[]access) {
 func (r *rewriter) lhsAccess(l ast.Expr, acc *[]access) {
 	switch x := unparen(l).(type) {
 	case *ast.IndexExpr:
+		// assigning to a map element writes the map object; assigning to a slice or array element
+		// only reads the variable holding it (elements are not tracked: two threads may own
+		// different elements)
+		_, isMap := r.info().TypeOf(x.X).Underlying().(*types.Map)
 		if root, p := r.rootAndPath(x.X); root != nil {
-			*acc = append(*acc, access{p, true, r.memPtr(x.X)})
+			*acc = append(*acc, mkAccess(p, isMap, r.memPtr(x.X)))
+		} else if loc, _, ok := r.heapPath(x.X); ok && isMap {
+			*acc = append(*acc, mkAccess(loc, true, r.safePtr(unparen(x.X))))
 		} else {
 			r.collect(x.X, acc)
 		}
 		r.collect(x.Index, acc)
 	default:
 		if root, p := r.rootAndPath(l); root != nil {
-			*acc = append(*acc, access{p, true, r.memPtr(unparen(l))})
+			*acc = append(*acc, mkAccess(p, true, r.memPtr(unparen(l))))
 			// the base pointer/struct is read
 			if se, ok := unparen(l).(*ast.SelectorExpr); ok {
 				if _, bp := r.rootAndPath(se.X); bp != "" && bp != p {
 					_ = bp
 				}
 			}
-		} else {
+		} else if !r.heapAccess(l, true, acc) {
 			r.collect(l, acc)
 		}
 	}
@@ -689,14 +846,20 @@ func (r *rewriter) stmtAccesses(s ast.Stmt) []access {
 	case *ast.ExprStmt:
 		r.collect(x.X, &acc)
 	case *ast.AssignStmt:
+		sync := false
 		for _, e := range x.Rhs {
 			r.collect(e, &acc)
+			sync = sync || r.maySync(e)
 		}
 		for _, l := range x.Lhs {
 			if x.Tok == token.DEFINE {
 				continue
 			}
+			n := len(acc)
 			r.lhsAccess(l, &acc)
+			for i := n; i < len(acc); i++ {
+				acc[i].after = sync && acc[i].write
+			}
 			if x.Tok != token.ASSIGN { // += etc. also read
 				r.collect(l, &acc)
 			}
@@ -757,8 +920,11 @@ func (r *rewriter) accessStmt(a access, site string) ast.Stmt {
 func (r *rewriter) instrumentList(list []ast.Stmt) []ast.Stmt {
 	var out []ast.Stmt
 	for _, s := range list {
-		for _, a := range r.stmtAccesses(s) {
-			out = append(out, r.accessStmt(a, r.site(s.Pos())))
+		accs := r.stmtAccesses(s)
+		for _, a := range accs {
+			if !a.after {
+				out = append(out, r.accessStmt(a, r.site(s.Pos())))
+			}
 		}
 		// a for-loop condition is re-evaluated every iteration
 		if f, ok := s.(*ast.ForStmt); ok && f.Cond != nil {
@@ -778,6 +944,11 @@ func (r *rewriter) instrumentList(list []ast.Stmt) []ast.Stmt {
 			}
 		}
 		out = append(out, s)
+		for _, a := range accs {
+			if a.after {
+				out = append(out, r.accessStmt(a, r.site(s.Pos())))
+			}
+		}
 	}
 	return out
 }
@@ -811,9 +982,6 @@ func (r *rewriter) instrumentAccess() {
 		}
 		return true
 	})
-	if len(r.shared) == 0 {
-		return
-	}
 	ast.Inspect(r.file, func(n ast.Node) bool {
 		switch x := n.(type) {
 		case *ast.BlockStmt:
